@@ -1,7 +1,8 @@
 (* C17  The simulated stack and memo mirror the reference machine after every opcode. *)
 From Coq Require Import List NArith Bool.
 From PF Require Import Config Sim Ref Lex Envelope Oracles.
-From PF.proofs Require Import Refine Run PropsR Examples.
+From PF Require Import Entropy Gen SrcStdlibP.
+From PF.proofs Require Import FinR Refine Run PropsR Examples.
 
 (* for every prefix (n tokens) of every run: the reference machine accepts the prefix and its
    state is related to the simulated state after the same n tokens by Inv / invb *)
@@ -13,6 +14,18 @@ Theorem C17_prefixes : forall c framed steps,
     /\ invb (sim_after c (run_tokens c framed steps) n) rn = true.
 Proof. exact C17_R. Qed.
 Print Assumptions C17_prefixes.
+
+(* END TO END on the bit-exact model of the generator (the model suite S2 compares byte for byte with
+   the implementation), with the name table of the current source: the returned bytes lex to tokens
+   every prefix of which the reference machine accepts in a state related by invb to the simulated
+   state after the same prefix.  Through FinR.F_in_R. *)
+Theorem C17_generated_src : forall fmt c src r,
+  fmt_ok (src_env fmt) -> cfg_small c -> safeb c = true ->
+  generate_internal (src_env fmt) id_order c src = Ok r -> out_fits r ->
+  exists ts, lex_all (g_out r) = Some ts /\ forall n, exists rn,
+    ref_run rinit (firstn n ts) = Some rn /\ invb (sim_after c ts n) rn = true.
+Proof. intros fmt c src r Hf Hc Hs Hg Hfit. exact (gen_C17 (src_env fmt) c src r (src_names_ok fmt) Hf Hc Hg Hfit Hs). Qed.
+Print Assumptions C17_generated_src.
 
 (* what the executable relation means: same depth, same MARK positions, slot-wise compatible
    kinds, same memo index set *)
